@@ -291,6 +291,49 @@ type Opts struct {
 	// MaxAmmoSize: config key maxammosize of the http providers, of grpc/json and of the scenario
 	// providers ("maximum number of byte in an ammo"; 0 = not set). The generic JSON provider has none.
 	MaxAmmoSize int
+	// SourcePath (grpc/json): name the ammo file through `source: {type: file, path: …}` instead of `file:`
+	SourcePath bool
+}
+
+// ScanDecoder drives an http decoder DIRECTLY (decoders.NewDecoder over a mem file, the configuration's
+// Limit and Passes given to the decoder itself): Scan is called until it returns an error or max items
+// were produced. Returns the entry indexes in order and the class of the final error ("-": none yet).
+func ScanDecoder(kind string, limit, passes int, es []Entry, eof int, max int) (seq []int, errClass string, err error) {
+	defer func() {
+		if r := recover(); r != nil {
+			errClass, err = "panic", nil
+		}
+	}()
+	name, content := FileFor(kind, es)
+	fs := afero.NewMemMapFs()
+	if err := afero.WriteFile(fs, name, []byte(applyEOF(kind, content, eof)), 0644); err != nil {
+		return nil, "", err
+	}
+	file, err := fs.Open(name)
+	if err != nil {
+		return nil, "", err
+	}
+	defer file.Close()
+	dec := map[string]config.DecoderType{"uri": config.DecoderURI, "uripost": config.DecoderURIPost,
+		"raw": config.DecoderRaw, "jsonl": config.DecoderJSONLine, "jsona": config.DecoderJSONLine}[kind]
+	d, err := decoders.NewDecoder(config.Config{Decoder: dec, Limit: uint(limit), Passes: uint(passes)}, file)
+	if err != nil {
+		return nil, "", err
+	}
+	ctx := context.Background()
+	for len(seq) < max {
+		a, err := d.Scan(ctx)
+		if err != nil {
+			return seq, ErrClass(err), nil
+		}
+		req, err := a.BuildRequest()
+		if err != nil || req.URL == nil {
+			seq = append(seq, -1)
+			continue
+		}
+		seq = append(seq, idxOf(req.URL.Path, "/e"))
+	}
+	return seq, "-", nil
 }
 
 // BuildFSOpt is BuildFS with the remaining reading options of the provider set.
@@ -384,7 +427,12 @@ func BuildFSOpt(kind string, preload bool, limit, passes int, es []Entry, chosen
 		}
 		return &Built{P: p, Ident: ident, Full: full}, nil
 	case "grpcjson":
-		p := grpcjson.NewProvider(fs, grpcjson.Config{File: name, Limit: limit, Passes: passes, ChosenCases: chosen, MaxAmmoSize: opts.MaxAmmoSize})
+		gconf := grpcjson.Config{File: name, Limit: limit, Passes: passes, ChosenCases: chosen, MaxAmmoSize: opts.MaxAmmoSize}
+		if opts.SourcePath {
+			gconf.File = ""
+			gconf.Source = grpcjson.Source{Type: "file", Path: name}
+		}
+		p := grpcjson.NewProvider(fs, gconf)
 		return &Built{P: p, Ident: func(a core.Ammo) int {
 			ga, ok := a.(*grpcammo.Ammo)
 			if !ok {
